@@ -306,7 +306,15 @@ func scenarioForged(c *harness.Ctx) {
 			desc = fmt.Sprintf("uncompressed total length %d", neg)
 		} else {
 			body := frame.PutVarint(nil, neg) // data length negative
-			body = append(body, frame.Build(id, tp.Bytes(20), false, false)...)
+			if tp.Bool(1, 2) {
+				body = append(body, frame.Build(id, tp.Bytes(20), false, false)...)
+			} else {
+				// ... in front of a perfectly well-formed zlib stream
+				whole := frame.Build(id, tp.Bytes(tp.Choose(40)), true, true)
+				_, hl, _ := varintLen(whole)
+				_, dl, _ := varintLen(whole[hl:])
+				body = append(body, whole[hl+dl:]...)
+			}
 			forged = frame.PutVarint(nil, int32(len(body)))
 			forged = append(forged, body...)
 			desc = fmt.Sprintf("data length %d", neg)
@@ -399,3 +407,15 @@ var prop = &harness.Property{
 func TestWorker(t *testing.T) { harness.Main(t, prop) }
 
 var pForgedBigReceiver = simrt.NewProbe("forged.receiver.with.pre-allocated.capacity>2MiB")
+
+// varintLen decodes a VarInt and returns its value and encoded length.
+func varintLen(b []byte) (int32, int, error) {
+	var u uint32
+	for i := 0; i < 5 && i < len(b); i++ {
+		u |= uint32(b[i]&0x7f) << (7 * uint(i))
+		if b[i]&0x80 == 0 {
+			return int32(u), i + 1, nil
+		}
+	}
+	return 0, 0, io.ErrUnexpectedEOF
+}
